@@ -125,6 +125,12 @@ def execute(T, text, schedule, nthreads, ranges, extra=None, kwargs=None):
     fns = [(lambda kw=kws[i], tx=texts[i]: str(L.parse(tx, **kw))) for i in range(nthreads)]
     if extra == 'ctor':
         fns[-1] = lambda: str(le.Licensing(['zlib', 'x y']).parse('zlib or x y'))
+    if extra == 'ctor-same':
+        # the shared Licensing and the one constructed meanwhile are given the very same symbol objects (a module-level table)
+        S = [le.LicenseSymbol(k, aliases=tuple(a), is_exception=e) for k, a, e in T]
+        L = le.Licensing(S)
+        fns = [(lambda kw=kws[i], tx=texts[i]: str(L.parse(tx, **kw))) for i in range(nthreads)]
+        fns[-1] = lambda: str(len(le.Licensing(S).known_symbols))
     lg = Logger(ranges, nthreads)
     r = sched.Run(fns, schedule, on_line=lg).go()
     return r.results, lg.log, r.lines, r.errors, r.deadlock
@@ -204,6 +210,28 @@ def run(rep, tier, seed):
                 if bad:
                     rep.violations.append({'key': 'schedule', 'kind': 'schedule', 'table': T, 'text': list(texts), 'schedule': schedule,
                                            'threads': 2, 'extra': None, 'what': bad})
+    # another Licensing constructed over the same symbol objects while the shared one is first used: the constructor is stopped
+    # after k lines, the first use runs, the constructor goes on
+    CT, ctext = ([('MIT', ['the MIT license'], False), ('GPL-2.0-or-later', ['GNU GPL v2 or later', 'GPL 2+'], False),
+                  ('Classpath-exception-2.0', ['classpath exception 2.0'], True)],
+                 'GNU GPL v2 or later with classpath exception 2.0 or the MIT license')
+    cwant = expected_for(CT, ctext)
+    res, log, lines, errs, dl = execute(CT, ctext, [(2, None), (0, None), (1, None)], 3, ranges, 'ctor-same')
+    for k in range(1, lines[2] + 1, 1 if tier == 'thorough' else 2):
+        schedule = [(2, k), (0, None), (2, None), (1, None)]
+        results, log, lines2, errs, dl = execute(CT, ctext, schedule, 3, ranges, 'ctor-same')
+        rep.case((repr(CT), ctext, repr(schedule), 'ctor-same'), nontrivial=True, sample={'table': CT, 'text': ctext, 'schedule': schedule} if k == 1 else None)
+        rep.count('constructor_over_the_same_symbols_schedules')
+        bad = 'the execution did not terminate under the scheduler' if dl else None
+        for i, r in enumerate(results[:2]):
+            if outcome(r, errs[i]) != cwant:
+                bad = bad or 'thread %d: %r, alone: %r' % (i, outcome(r, errs[i]), cwant)
+        if errs[2] is not None:
+            bad = bad or 'the constructor raised %r' % (errs[2],)
+        if bad:
+            rep.violations.append({'key': 'schedule', 'kind': 'schedule', 'table': CT, 'text': ctext, 'schedule': schedule,
+                                   'threads': 3, 'extra': 'ctor-same', 'what': bad})
+            break
     reqs, metas = [], []
     for T, text, want, schedule, nth, extra in cases:
         results, log, lines, errs, dl = execute(T, text, schedule, nth, ranges, extra)
@@ -305,6 +333,6 @@ def replay(payload):
     ptx = payload['text']
     ptxs = list(ptx) if isinstance(ptx, (list, tuple)) else [ptx] * payload['threads']
     wants = [expected_for(T, ptxs[min(i, len(ptxs) - 1)], (kws[i] if kws and i < len(kws) else None)) for i in range(payload['threads'])]
-    ok = all((outcome(r, errs[i]) == wants[i] or (errs[i] is None and payload.get('extra') == 'ctor' and i == payload['threads'] - 1))
+    ok = all((outcome(r, errs[i]) == wants[i] or (errs[i] is None and payload.get('extra') in ('ctor', 'ctor-same') and i == payload['threads'] - 1))
              for i, r in enumerate(results))
     return ok, 'results %r (alone: %r)' % (results, wants[0])
